@@ -33,7 +33,7 @@ def main():
     blocks = {}
     cur = None
     for line in out.splitlines():
-        mm = re.match(r"^(\w+)$", line)
+        mm = re.match(r"^([\w']+)$", line)
         if mm and mm.group(1) in [l for (_, l, _) in m.PINS]:
             cur = mm.group(1)
             blocks[cur] = []
